@@ -46,6 +46,7 @@ def install_mmae_probe():
         probes.rec("mmae_update_end", target=self.target_id, n=len(self.models), weights=np.array(self.model_weights, dtype=float).copy(), flags=str(self.flags),
                    est_x=np.array(self.est_x, dtype=float).copy(), est_p=np.array(self.est_p, dtype=float).copy(),
                    converged_x=None if cf is None else np.array(cf.est_x, dtype=float).copy(), converged_p=None if cf is None else np.array(cf.est_p, dtype=float).copy(),
+                   converged_time=None if cf is None else float(cf.time), time=float(self.time), model_times=[float(m.time) for m in self.models],
                    models=model_view(self))
 
     for cls in (StaticMultipleModel, GeneralizedPseudoBayesian1):
@@ -281,6 +282,10 @@ class C18(Check):
                     else:
                         if not (np.allclose(end["converged_x"], end["est_x"], rtol=1e-12, atol=0) and np.allclose(end["converged_p"], end["est_p"], rtol=1e-12, atol=0)):
                             viol.append({"clause": "handed-back-filter-differs", "key": r["cls"], "detail": f"{where}: the filter handed back does not carry the combined estimate at closure"})
+                        # ... and belongs to the epoch of this update (the agent goes on predicting from the filter's own time)
+                        if end["converged_time"] is not None and (abs(end["converged_time"] - end["time"]) > 1e-6 or any(abs(mt - end["time"]) > 1e-6 for mt in end["model_times"])):
+                            viol.append({"clause": "handed-back-filter-differs", "key": "time",
+                                         "detail": f"{where}: estimation closes at t={end['time']}s (models at {sorted(set(end['model_times']))}) but the filter handed back is at t={end['converged_time']}s"})
                         if end["n"] == 1 and not np.allclose(end["converged_x"], end["models"][0]["est_x"], rtol=1e-9, atol=1e-12):
                             viol.append({"clause": "handed-back-filter-differs", "key": "surviving-model", "detail": f"{where}: one model survived but the filter handed back has a different state"})
                         sn = snaps.get(r["step"])
